@@ -36,6 +36,7 @@ def main():
     ap.add_argument('--needs', default='')
     ap.add_argument('--prefix', default='S', help='id prefix (S: round 1, S2: round 2 written with a generic description of a randomized tester)')
     ap.add_argument('--note', default='')
+    ap.add_argument('--edits', action='store_true', help='two-site change: also run the check on editA.diff / editB.diff alone (must be quiet)')
     args = ap.parse_args()
     src = args.src or '/tmp/seed_out_%s' % args.prop
     patch = os.path.join(src, 'change%s.diff' % args.n)
@@ -98,6 +99,30 @@ def main():
             'repo_head': subprocess.check_output(['git', '-C', '/repo', 'rev-parse', '--short', 'HEAD']).decode().strip(),
         }
         json.dump(meta, open(os.path.join(dst, 'meta.json'), 'w'), indent=1)
+        if args.edits:
+            # two-site changes: each edit alone is claimed to keep the property -> the check must stay quiet on it
+            for nm in ('editA', 'editB'):
+                ep = os.path.join(src, nm + '.diff')
+                if not os.path.exists(ep):
+                    meta[nm] = 'missing'
+                    continue
+                wt2 = wt + '_' + nm
+                subprocess.call(['git', '-C', '/repo', 'worktree', 'remove', '--force', wt2], stderr=subprocess.DEVNULL)
+                subprocess.check_call(['git', '-C', '/repo', 'worktree', 'add', '-q', '--detach', wt2, 'HEAD'])
+                try:
+                    rc_a, out_a = sh(['git', '-C', wt2, 'apply', '--whitespace=nowarn', ep])
+                    rc_t, out_t = sh([PY, '-m', 'pytest', '-q', '-p', 'no:cacheprovider'], cwd=wt2,
+                                     env=dict(os.environ, PYTHONDONTWRITEBYTECODE='1'))
+                    rc_d, _ = sh([PY, '-B', demo], cwd='/tmp', env=dict(os.environ, PYTHONPATH=os.path.join(wt2, 'src'),
+                                                                         PYTHONDONTWRITEBYTECODE='1'))
+                    rc_c, out_c = sh(cmd, cwd=ROOT, env=dict(os.environ, VERIF_REPO=wt2))
+                    mm = re.search(r'violation: property=\S+ predicate=(\S+)', out_c)
+                    meta[nm] = 'apply=%d pytest=%d demo=%d check=%d %s' % (rc_a, rc_t, rc_d, rc_c, mm.group(1) if mm else '')
+                    shutil.copy(ep, os.path.join(dst, nm + '.diff'))
+                    print('   %s alone: pytest rc=%d, demo rc=%d, check rc=%d %s' % (nm, rc_t, rc_d, rc_c, mm.group(1) if mm else ''))
+                finally:
+                    subprocess.check_call(['git', '-C', '/repo', 'worktree', 'remove', '--force', wt2])
+            json.dump(meta, open(os.path.join(dst, 'meta.json'), 'w'), indent=1)
         print(sid, 'VALID;', 'CAUGHT' if caught else 'MISSED', how, '(%.0fs)' % took)
         if m:
             print('   first lines of the report:')
